@@ -89,9 +89,8 @@ class PandasMissingValueFeatureGroup(MissingValueFeatureGroup):
             elif imputation_method == "median":
                 return result.fillna(result.median())
             elif imputation_method == "mode":
-                # Get the most frequent value (first mode if multiple)
-                mode_value = result.mode().iloc[0] if not result.mode().empty else None
-                return result.fillna(mode_value)
+                # Get the most frequent value (the first one seen if several are equally frequent)
+                return result.fillna(cls._first_mode(result))
             elif imputation_method == "constant":
                 return result.fillna(constant_value)
             elif imputation_method == "ffill":
@@ -128,6 +127,18 @@ class PandasMissingValueFeatureGroup(MissingValueFeatureGroup):
                 return df_subset.max(axis=1)
             else:
                 raise ValueError(f"Unsupported imputation method for multi-column: {imputation_method}")
+
+    @classmethod
+    def _first_mode(cls, series: pd.Series) -> Any:
+        """
+        The most frequent non-missing value; ties are broken by first occurrence, as the PyArrow and PythonDict
+        implementations do (Series.mode() would sort the tied values and return the smallest).
+        Returns None if the series has no non-missing value.
+        """
+        counts = series.value_counts(sort=False)  # sort=False preserves the order of the data
+        if counts.empty:
+            return None
+        return counts.idxmax()  # the first label with the highest count
 
     @classmethod
     def _perform_grouped_imputation(
@@ -187,9 +198,8 @@ class PandasMissingValueFeatureGroup(MissingValueFeatureGroup):
                 # Get indices for this group
                 group_indices = group.index
                 # Get the mode for this group
-                group_mode = group[in_features].mode()
-                if not group_mode.empty:
-                    mode_value = group_mode.iloc[0]
+                mode_value = cls._first_mode(group[in_features])
+                if mode_value is not None:
                     # Apply the mode to missing values in this group
                     result.loc[group_indices] = result.loc[group_indices].fillna(mode_value)
             return result
